@@ -102,6 +102,9 @@ pub uninterp spec fn str_trim_start_spec(s: Seq<char>) -> Seq<char>;
 pub uninterp spec fn str_trim_end_spec(s: Seq<char>) -> Seq<char>;
 pub uninterp spec fn str_lower_spec(s: Seq<char>) -> Seq<char>;
 pub uninterp spec fn str_upper_spec(s: Seq<char>) -> Seq<char>;
+// byte length of a string (UTF-8): an uninterpreted number (only ever used as a capacity hint in the code under contract)
+pub uninterp spec fn str_byte_len(s: Seq<char>) -> usize;
+pub assume_specification [String::len] (s: &String) -> (r: usize) ensures r == str_byte_len(s@), r <= 0x7fff_ffff_ffff_ffff;   // allocations are at most isize::MAX bytes
 pub assume_specification [str::trim] (s: &str) -> (r: &str) ensures r@ == str_trim_spec(s@);
 pub assume_specification [str::trim_start] (s: &str) -> (r: &str) ensures r@ == str_trim_start_spec(s@);
 pub assume_specification [str::trim_end] (s: &str) -> (r: &str) ensures r@ == str_trim_end_spec(s@);
